@@ -50,7 +50,7 @@ def configurations(tier):
 def plan(tier, seed):
     if tier == "quick":
         return ([{"kind": "sweep", "net": n} for n in NETS] + [{"kind": "sizes", "net": n, "part": p} for n in ("BTC", "GRS") for p in (0, 1)] +
-                [{"kind": "random", "n": 900} for _ in range(7)])
+                [{"kind": "random", "n": 9000} for _ in range(7)])
     return ([{"kind": "sweep", "net": n} for n in NETS] + [{"kind": "sizes", "net": n, "part": p} for n in ("BTC", "GRS", "LTC") for p in (0, 1)] +
             [{"kind": "random", "n": 180000} for _ in range(12)])
 
